@@ -214,17 +214,37 @@ func (ch c12) connect(c *core.Ctx, env *hs.Env, cfg c12config, p c12packet, yiel
 	conn.Yield = yield
 	env.L.DialConn(conn)
 	cl := hs.NewClient(conn)
-	cl.C.Send(p.bytes())
+	sslFirst := p.Bad == "" && core.H64(p.shape())%5 == 0
+	if sslFirst {
+		// the client does not wait for the answer to its SSLRequest (declined here: no certificates): the
+		// start-up packet is in the same segment
+		cl.C.Send(append(pg.SSLRequest(), p.bytes()...))
+		c.Count("startups_in_one_segment_with_a_declined_sslrequest", 1)
+	} else {
+		cl.C.Send(p.bytes())
+	}
 	if p.Bad == "truncated" {
 		cl.C.CloseWrite()
 	}
 	closed, _ := cl.C.Quiesce()
+	if sslFirst {
+		if o := cl.C.Out(); len(o) == 0 || o[0] != 'N' {
+			return viol("ssl-reply", "SSLRequest on a server without certificates not answered with N", trim(replyKinds(o), 100))
+		}
+	}
+	outAll := func() []byte {
+		if o := cl.C.Out(); sslFirst && len(o) > 0 {
+			return o[1:]
+		} else {
+			return o
+		}
+	}
 	if hangCheck(c, cl, cs) {
 		return false
 	}
 	if p.Bad != "" {
 		c.Count("malformed_startups", 1)
-		out := cl.C.Out()
+		out := outAll()
 		k := replyKinds(out)
 		cbs := 0
 		for _, e := range cl.C.Events() {
@@ -238,14 +258,14 @@ func (ch c12) connect(c *core.Ctx, env *hs.Env, cfg c12config, p c12packet, yiel
 		return true
 	}
 	if cfg.Auth {
-		out := cl.C.Out()
+		out := outAll()
 		if replyKinds(out) != "R(3)" || closed {
 			return viol("auth-first", "authentication exchange is not first", replyKinds(out))
 		}
 		cl.C.Send(pg.Password("pw"))
 		closed, _ = cl.C.Quiesce()
 	}
-	out := cl.C.Out()
+	out := outAll()
 	msgs, err := parseAll(out)
 	if err != nil || closed {
 		return viol("grammar", "startup reply not well-formed", fmt.Sprint(err, " closed=", closed))
